@@ -1,6 +1,7 @@
 package homescript
 
 import (
+	"os"
 	"fmt"
 	"sync"
 
@@ -194,6 +195,8 @@ var verifSpawnSharedProgs = []struct {
 		[]string{"100\n", "101\n", "102\n", "1003\n", "200\n", "201\n", "202\n", "2003\n"}},
 	{"range-global", "let R = 0..=2;\nfn w(tag: int) {\n  let s = 0;\n  for i in R {\n    println(tag * 100 + i);\n    s += i;\n  }\n  println(tag * 1000 + s);\n}\nfn main() {\n  spawn w(1);\n  spawn w(2);\n}\n",
 		[]string{"100\n", "101\n", "102\n", "1003\n", "200\n", "201\n", "202\n", "2003\n"}},
+	{"nested-spawns", "let t = 0;\nlet go = false;\nfn child(k: int) {\n  let i = 0;\n  while i < k * 4 {\n    i += 1;\n    t += 1;\n  }\n  println(k);\n}\nfn parent(k: int) {\n  while !go { }\n  spawn child(k);\n}\nfn main() {\n  spawn parent(1);\n  spawn parent(2);\n  spawn parent(3);\n  spawn parent(5);\n  t += 1;\n  go = true;\n}\n",
+		[]string{"1\n", "2\n", "3\n", "5\n"}},
 	{"list-argument-read-only", "fn w(l: [int], tag: int) {\n  let s = 0;\n  for x in l {\n    s += x;\n  }\n  println(tag * 1000 + s + l.len());\n}\nfn main() {\n  let l = [1, 2, 3];\n  spawn w(l, 1);\n  spawn w(l, 2);\n}\n",
 		[]string{"1009\n", "2009\n"}},
 }
@@ -207,22 +210,30 @@ func VerifHarness_SpawnShared() {
 		errors.VerifAssert("accepted", false)
 		return
 	}
-	base := errors.VerifLiveGoroutines()
-	var o verifOutcome
-	panicked, msg := errors.VerifPanics(func() { o = verifRunVM(an, nil, nil, verifLimits, newVerifCtx()) })
-	if panicked {
-		errors.VerifTag("panic", errors.VerifNorm(msg))
+	// natively, when a counterexample that needs an interleaving is replayed (VERIF_CHAOS_SEED), the program is run
+	// many times in the one process: windows of a few instructions are hit by repetition, not by one lucky run
+	reps := 1
+	if os.Getenv("VERIF_CHAOS_SEED") != "" {
+		reps = 20
 	}
-	errors.VerifAssert("spawn-never-crashes-the-host", !panicked)
-	if panicked {
-		return
+	for r := 0; r < reps; r++ {
+		base := errors.VerifLiveGoroutines()
+		var o verifOutcome
+		panicked, msg := errors.VerifPanics(func() { o = verifRunVM(an, nil, nil, verifLimits, newVerifCtx()) })
+		if panicked {
+			errors.VerifTag("panic", errors.VerifNorm(msg))
+		}
+		errors.VerifAssert("spawn-never-crashes-the-host", !panicked)
+		if panicked {
+			return
+		}
+		errors.VerifReached("returned")
+		errors.VerifAssert("run-completes", o.class == "ok")
+		errors.VerifTag("got", errors.VerifNorm(o.out))
+		errors.VerifAssert("every-core-sees-the-whole-value-it-was-given", verifIsInterleavingOf(o.out, t.lines))
+		errors.VerifUntag("got")
+		errors.VerifAssert("wait-returned-after-all-cores-finished", errors.VerifLiveGoroutines() <= base)
 	}
-	errors.VerifReached("returned")
-	errors.VerifAssert("run-completes", o.class == "ok")
-	errors.VerifTag("got", errors.VerifNorm(o.out))
-	errors.VerifAssert("every-core-sees-the-whole-value-it-was-given", verifIsInterleavingOf(o.out, t.lines))
-	errors.VerifUntag("got")
-	errors.VerifAssert("wait-returned-after-all-cores-finished", errors.VerifLiveGoroutines() <= base)
 }
 
 // verifIsInterleavingOf: out consists of exactly the given lines, each once, in any order (the output is concrete here).
